@@ -14,7 +14,7 @@ import (
 func init() {
 	register(&explore.Prop{
 		ID: "C06", Level: levelMC, Explorer: "E1 input-space enumerator + E2 path mode (visit histories)",
-		Rule: "STORED-S (<=3 docs x 8 stored configurations) in forms built / loaded-mem / loaded-file / merged by block copy / merged by re-encode (drops; differing field lists): every doc number plus {Count, Count+1, Count+127, Count+128, 2^32}, every early-stop index; COPY-CROSS (two-segment block-copy merges whose merged count crosses a multiple of 128 inside a source block); STORED-B (130 docs in two blocks; length of doc 0 and doc 128 in 0..24, six record shapes for the last record of each block): every doc of interest and every sequence of <=3 visits over {0,127,128,129} on a freshly loaded segment (the decompressed block is cached, so a visit depends on earlier ones), also after merge; " +
+		Rule: "STORED-S (<=3 docs x 8 stored configurations) in forms built / loaded-mem / loaded-file / merged by block copy / merged by re-encode (drops; differing field lists): every doc number plus {Count, Count+1, Count+127, Count+128, 2^32}, every early-stop index; STORED-X (130 stored values in one document, a 20 000-byte value, stored field ids >= 128); COPY-CROSS (two-segment block-copy merges whose merged count crosses a multiple of 128 inside a source block); STORED-B (130 docs in two blocks; length of doc 0 and doc 128 in 0..24, six record shapes for the last record of each block): every doc of interest and every sequence of <=3 visits over {0,127,128,129} on a freshly loaded segment (the decompressed block is cached, so a visit depends on earlier ones), also after merge; " +
 			"distinct = (segment, form, visit sequence); non-trivial = visited document has >=1 stored value, sequences: touches >=2 different blocks",
 		Assumptions: commonAssumptions, Budget: qBudget, Run: runC06,
 	})
@@ -239,6 +239,42 @@ func runC06(c *explore.Ctx) {
 		}
 		return !c.Expired()
 	})
+	// STORED-X: extreme records: 130 stored values in one document, a 20 000-byte value (3-byte
+	// varints for lengths and offsets), stored fields with ids >= 128
+	{
+		long := make([]byte, 20000)
+		for i := range long {
+			long[i] = byte('a' + i%26)
+		}
+		var many model.Doc
+		for k := 0; k < 130; k++ {
+			many = append(many, model.Field{N: "a", St: true, Val: []byte(fmt.Sprintf("value-%03d", k))})
+		}
+		var wide model.Doc
+		for f := 0; f < 140; f++ {
+			wide = append(wide, model.Field{N: fmt.Sprintf("f%03d", f), St: f%2 == 0, Val: []byte(fmt.Sprintf("w%d", f)), Len: 1, Terms: []model.Term{{T: "t", Freq: 1}}})
+		}
+		xs := [][]model.Doc{
+			{many, {{N: "a", St: true, Val: []byte("after")}}},
+			{{{N: "a", St: true, Val: long}, {N: "z", St: true, Val: []byte("tail-after-the-long-value")}}, {{N: "z", St: true, Val: long[:16384]}}},
+			{wide, wide[:70]},
+		}
+		for xi, batch := range xs {
+			scope := "STORED-X"
+			if !c.MineIdx(scope, int64(xi)) {
+				continue
+			}
+			c.Eval()
+			c.Nontrivial()
+			cas := fmt.Sprintf("STORED-X #%d", xi)
+			for _, f := range storedForms(c, scope, int64(xi), batch, cas, true) {
+				checkAllDocs(c, scope, int64(xi), f.seg, f.want, f.name, cas+" form="+f.name, true)
+				if f.close != nil {
+					f.close()
+				}
+			}
+		}
+	}
 	// COPY-CROSS: block-copy merges of two segments with identical field lists and no deletions whose
 	// sizes make the merged document count cross a multiple of 128 inside a source block
 	{
